@@ -154,8 +154,22 @@ def parse_log(path):
     return evs
 
 
-def run_zh(zh, cdir, script, files=None, cpu=CPU_LIMIT, env_extra=None, name="case", prefix=()):
-    """Run the op interpreter on `script` in cdir.  files: {name: bytes}.  prefix: e.g. a valgrind command line."""
+def run_zh(zh, cdir, script, files=None, cpu=CPU_LIMIT, env_extra=None, name="case", prefix=(), slow_retry=None):
+    """Run the op interpreter on `script` in cdir.  files: {name: bytes}.  prefix: e.g. a valgrind command line.
+    slow_retry: path of the same interpreter from the UNINSTRUMENTED build.  A CPU-bound overrun seen under ASan is
+    confirmed there before it counts as "does not terminate": ASan's allocator never grows a block in place, so a loop
+    that realloc()s a growing buffer is quadratic under ASan only (1 MiB chunk read in 1-byte steps: 0.3 s plain,
+    470 s under ASan).  If the plain run finishes within the same bound its event log is judged instead (r.asan_slow)."""
+    r = _run_zh(zh, cdir, script, files, cpu, env_extra, name, prefix)
+    if slow_retry and r.cpu_exceeded and not san_signatures(r.san):
+        r2 = _run_zh(slow_retry, cdir, script, files, cpu, env_extra, name + "_plain", ())
+        if r2.ended and not r2.cpu_exceeded and not r2.timed_out:
+            r2.asan_slow = True
+            return r2
+    return r
+
+
+def _run_zh(zh, cdir, script, files, cpu, env_extra, name, prefix):
     os.makedirs(cdir, exist_ok=True)
     for fn, data in (files or {}).items():
         with open(os.path.join(cdir, fn), "wb") as f:
@@ -542,7 +556,7 @@ def _replay(self, path):
     os.makedirs(self.work, exist_ok=True)
     ctx = self.prepare(fl)
     for k, v in ctx.items():
-        if k in case:
+        if k in case or k.endswith("_plain"):
             case[k] = v
     case["dir"] = os.path.join(self.work, "replay")
     os.environ["ZCKV_KEEP_CASE"] = "1"
